@@ -3,6 +3,7 @@
 // (fault enumeration); models, serialisations, clock offsets and surrounding history are sampled.
 #include "prof_common.h"
 
+#include <map>
 #include <set>
 #include <sstream>
 
@@ -30,10 +31,8 @@ void profile_blast(RunCtx& ctx)
     XmlKnobs kn = draw_knobs(rng);
     kn.pad_text = false;
     kn.crlf = false;
-    kn.empty_elems = false;            // empty <label/> elements would shift the label indices list_blocks() computes
     kn.project_root = false;           // list_blocks() builds its XPaths under /nta
     kn.big_text_lines = 0;             // the fault positions are computed from the block texts of the model
-    kn.rate_before_invariant = false;  // list_blocks() computes label XPaths for the invariant-first order
     const Rng render_rng = rng.fork();
     // layouts in front of the fault site: leading blank lines, CRLF, comments, continuations
     static const std::vector<std::string> prefixes{"", "", "\n\n", "\r\n\r\n", "/* c */ ", "// c\n", " \\\n ", "\t", "/* a\n b */\n", "\n\r\n \n", "/**\n * a\n *\n */\n", "/***\n***/ "};
@@ -163,9 +162,18 @@ void profile_blast(RunCtx& ctx)
         Model mf = pristine;
         set_block_text(mf, b, fr.text);
         Rng rr = render_rng;
-        const std::string xml = render_xml(mf, kn, rr);
+        std::map<std::string, std::string> label_paths;
+        const std::string xml = render_xml(mf, kn, rr, &label_paths);
+        // where the faulted block really is in this rendering (the renderer may have put empty sibling labels in front)
+        std::string bx = b.xpath;
+        {
+            static const char* xmlkind[] = {"", "", "", "invariant", "exponentialrate", "select", "guard", "synchronisation", "assignment", "probability", ""};
+            auto it = label_paths.find(std::string{xmlkind[b.kind]} + ":" + std::to_string(b.templ) + ":" + std::to_string(b.index));
+            if (it != label_paths.end())
+                bx = it->second;
+        }
         const std::string fname = token_fault_name(site.fault);
-        const std::string where = std::string{b.kind_name()} + " " + b.xpath + " token " + std::to_string(site.tok) + " fault " + fname;
+        const std::string where = std::string{b.kind_name()} + " " + bx + " token " + std::to_string(site.tok) + " fault " + fname;
         ctx.count("fault-sites");
         ctx.count("fault-kind:" + fname);
         ctx.count(std::string{"block-kind:"} + b.kind_name());
@@ -200,7 +208,7 @@ void profile_blast(RunCtx& ctx)
                 if (!d.error)
                     continue;
                 ++nerr;
-                if (d.path == b.xpath) {
+                if (d.path == bx) {
                     ++in_block;
                     if (!d.unknown && d.sline == fr.line && d.scol == fr.scol && d.eline == fr.line && d.ecol == fr.ecol)
                         exact = true;
@@ -306,7 +314,11 @@ void profile_blast(RunCtx& ctx)
             ctx.event("builder " + where);
             if (r.threw) {
                 ctx.count("c16-load-threw");
-                continue;  // reported under C06 at document level
+                // one faulted label and the whole load is abandoned: every other block is lost with it
+                if (ctx.violation("C16", "fault-aborts-load", "c16|load-threw|" + block_sig(b) + "|" + fname + "|" + r.exc_class,
+                                  where + ": the load ended in " + r.exc_class + ": " + r.exc_what + "; text: " + fr.text))
+                    return;
+                continue;
             }
             DumpOpts o;
             o.diagnostics = false;
@@ -315,7 +327,7 @@ void profile_blast(RunCtx& ctx)
                 o.mask_elem = (b.kind == BlockRef::INV || b.kind == BlockRef::RATE) ? 'L' : 'E';
                 o.mask_index = b.index;
                 o.mask_field = b.field();
-                o.mask_path = b.xpath;
+                o.mask_path = bx;
                 std::string want = dump_document(*ref_builder.doc, o);
                 std::string got = dump_document(*s.doc, o);
                 ctx.count("c16-label-comparisons");
@@ -335,7 +347,7 @@ void profile_blast(RunCtx& ctx)
                     for (auto& d : view_diagnostics(*ref_builder.doc))
                         base.insert(d.path + "|" + d.msg);
                     for (auto& d : view_diagnostics(*s.doc)) {
-                        if (d.path == b.xpath)
+                        if (d.path == bx)
                             continue;
                         auto it = base.find(d.path + "|" + d.msg);
                         if (it != base.end()) {
